@@ -25,7 +25,7 @@ RULE = (
     "Non-trivial: reconciliation with a loss or transfer, or non-default parameters."
 )
 ASSUMPTIONS = ["continuous parameters covered on finite menus only", "stub TeX measurer"]
-BUDGET = {"quick": 300, "thorough": 3000}
+BUDGET = {"quick": 900, "thorough": 3000}
 STUBS = [("unit", 0), ("big", 0), ("hash", 1), ("hash", 2), ("tall", 3), ("wide", 4)]
 NUMERIC = ("species_branch_padding", "gene_branch_spacing", "trunk_overhead", "min_subtree_spacing", "level_spacing")
 
